@@ -78,6 +78,8 @@ class TimingSystem:
             del sim.A[:]
             if self.assert_is_violation:
                 return f"{ASSERT_MSG}: {a}"
+        if sim.PR:
+            return f"intermediate variable read before written in an activation: {sim.poisoned_reads()}"
         S = sim.S
         got = tuple(from_raw(ty, S[sid]) for _, sid, ty in self.outs)
         new = set()
@@ -125,7 +127,7 @@ def check_config(cfg, max_states=MAX_STATES):
                    trace=None, src=src, sub="accepted")
         return out
     try:
-        d = compile_design(res.vhdl)
+        d = compile_design(res.vhdl, poison=True)
     except VhdlSyntaxError as e:
         out.update(status="static", what=f"emitted VHDL does not parse: {e}", src=src, trace=None)
         return out
@@ -159,13 +161,13 @@ def replay_config(cfg, trace, asserts=True):
         if expect == "reject":
             return "accepted although the clock period does not divide the Duration"
         try:
-            system = TimingSystem(compile_design(res.vhdl).sim(), model)
+            system = TimingSystem(compile_design(res.vhdl, poison=True).sim(), model)
         except rt.SimError as e:
             return f"simulation error: {e}"
         return None
     if not res.ok or model is None:
         return None
-    system = TimingSystem(compile_design(res.vhdl).sim(), model, assert_is_violation=asserts)
+    system = TimingSystem(compile_design(res.vhdl, poison=True).sim(), model, assert_is_violation=asserts)
     for ch in trace:
         try:
             msg = system.apply(_norm_choice(ch))
